@@ -150,6 +150,15 @@ def run_transform(case):
         before = dump(dm)
         exact_before = exact_cells(dm)
         t = build(case["tf"])
+        if case.get("warm"):
+            # the transformer object has been used before, on another matrix with the same criteria
+            wm = np.array(case["warm"]["matrix"], dtype=float)
+            for (i, j) in case["warm"].get("nan", []):
+                wm[i, j] = np.nan
+            try:
+                t.transform(I.mkdm(wm, list(case["objectives"]), weights=list(case["weights"]), criteria=list(case["criteria"])))
+            except Exception:  # noqa: BLE001
+                pass
         out = t.transform(dm)
         after = dump(out)
         exact_after = exact_cells(out)
